@@ -4,6 +4,7 @@ package libtime
 
 import (
 	"context"
+	"fmt"
 	"time"
 
 	"github.com/luthersystems/elps/lisp"
@@ -148,6 +149,9 @@ func BuiltinParseRFC3339(env *lisp.LEnv, args *lisp.LVal) *lisp.LVal {
 		return env.Errorf("argument is not a string: %v", stamp.Type)
 	}
 	t, err := time.Parse(time.RFC3339, stamp.Str)
+	if err == nil {
+		err = checkStrictRFC3339(stamp.Str)
+	}
 	if err != nil {
 		return env.Error(err)
 	}
@@ -160,10 +164,39 @@ func BuiltinParseRFC3339Nano(env *lisp.LEnv, args *lisp.LVal) *lisp.LVal {
 		return env.Errorf("argument is not a string: %v", stamp.Type)
 	}
 	t, err := time.Parse(time.RFC3339Nano, stamp.Str)
+	if err == nil {
+		err = checkStrictRFC3339(stamp.Str)
+	}
 	if err != nil {
 		return env.Error(err)
 	}
 	return Time(t)
+}
+
+// checkStrictRFC3339 rejects the spellings time.Parse tolerates under the
+// RFC 3339 layouts although RFC 3339 does not allow them -- the same three the
+// standard library's own strict reader (used by Time.UnmarshalText) looks for:
+// a one-digit hour, a comma before the fractional seconds, and a numeric
+// offset whose hour exceeds 23 or whose minute exceeds 59 ("+24:00"; "+01:60",
+// which time.Parse reads as +02:00).  s has already been accepted by
+// time.Parse, so apart from the hour the fields sit at fixed positions and a
+// numeric offset is the last six bytes.
+func checkStrictRFC3339(s string) error {
+	const hour = len("2006-01-02T")
+	if len(s) > hour+1 && s[hour+1] == ':' {
+		return fmt.Errorf("parsing time %q: hour must have two digits", s)
+	}
+	if len(s) > 19 && s[19] == ',' {
+		return fmt.Errorf("parsing time %q: fractional seconds must follow a '.'", s)
+	}
+	if n := len(s); n >= 6 && (s[n-6] == '+' || s[n-6] == '-') && s[n-3] == ':' {
+		hh := int(s[n-5]-'0')*10 + int(s[n-4]-'0')
+		mm := int(s[n-2]-'0')*10 + int(s[n-1]-'0')
+		if hh > 23 || mm > 59 {
+			return fmt.Errorf("parsing time %q: time zone offset out of range", s)
+		}
+	}
+	return nil
 }
 
 func BuiltinFormatRFC3339(env *lisp.LEnv, args *lisp.LVal) *lisp.LVal {
